@@ -245,14 +245,17 @@ Record pcstate := {
   s_procs : dict N                          (* new_processors *)
 }.
 
+(* parameters.pop(name if name in parameters else escaped_name) *)
+Definition pop_key (n e : name) (d : dict pval) : name := if dmem n d then n else e.
+
 Definition pc_step (ps : style) (inp : input) (ebn : dict name) (st : pcstate) (n : name) : result pcstate :=
   let e := dget_or_key ebn n in
   match kind_of inp n with
   | LitExec =>
       if dmem e (s_repl st) then Ok st
-      else match dget e (s_params st) with          (* parameters.pop(escaped_name) *)
+      else match dget (pop_key n e (s_params st)) (s_params st) with
            | None => Raise KeyError
-           | Some v => Ok {| s_params := dpop e (s_params st);
+           | Some v => Ok {| s_params := dpop (pop_key n e (s_params st)) (s_params st);
                              s_repl := dset e [OTxt (pct ps (lit_of v))] (s_repl st);
                              s_upd := s_upd st; s_newpos := s_newpos st; s_numpos := s_numpos st;
                              s_procs := s_procs st |}
